@@ -267,6 +267,9 @@ func (c *C20) Run(x *engine.Ctx) *engine.Violation {
 	w := &service.World{Sim: sim, Sys: c.sys, Cycles: 1, StopAfterBegun: -1, WaitBound: true}
 	gen := &service.Gen{T: t, Sys: c.sys}
 	faulty := t.Chance(1, 4) // fault-free and fault-injecting configurations are separate
+	if t.Chance(1, 2) {
+		w.PrioScrape = 1 + t.Draw(4)
+	}
 	if t.Chance(1, 5) {
 		w.Cycles = 2 // a restart on the same addresses: every Run has its own registry and counts from zero
 		x.S.Count("probe:runs_with_restart")
@@ -355,7 +358,7 @@ func (c *C20) judgeCycle(x *engine.Ctx, sim *service.Sim, w *service.World, cyc 
 		x.S.Eval(1)
 		isFinal := i == len(scrapes)-1
 		if sc.BlockedBehindProof {
-			return engine.Violatef("C20/metrics-endpoint-blocked-while-proof-in-flight", "scrape answered at step %d: its request had been taken up by the metrics server while a proof was in flight, its handler never became runnable (blocked on a lock or before any yield), and a prove request completed first", sc.Step)
+			return engine.Violatef("C20/metrics-endpoint-blocked-while-proof-in-flight", "scrape answered at step %d had been delivered to and accepted by the metrics server while a handler was parked in front of the Groth16 prover call; every task not about to compute a proof was then run until none was enabled and five seconds of fake time passed, and the scrape still had no answer: it could only be answered after a proof computation (%s)", sc.Step, sc.BlockedWhy)
 		}
 		if !sc.OK {
 			return engine.Violatef("C20/metrics-endpoint-unavailable", "scrape at step %d failed", sc.Step)
